@@ -47,13 +47,13 @@ HARD_TIMEOUT_S = {"quick": 900, "thorough": 4000}
 FLOORS = {
     "quick": {"evaluations": 25000, "distinct": 8000,
               "counters": {"ok": 8000, "tse": 8000, "gen_cases": 1000, "mut_cases": 4000,
-                           "exh_cases": 15000, "ladder_cases": 1200, "corner_cases": 7500,
+                           "exh_cases": 15000, "ladder_cases": 1200, "corner_cases": 7500, "nest_product_cases": 1500,
                            "raw_compile_ok": 5000, "lineno_checked": 8000}},
     # thorough: 7.2M evaluations at load ~2x, 3.7M (exhaustive cut after length 3)
     # at load ~5x; floors = 1/4 of the latter
     "thorough": {"evaluations": 900000, "distinct": 500000,
                  "counters": {"ok": 500000, "tse": 400000, "gen_cases": 75000, "mut_cases": 300000,
-                              "exh_cases": 500000, "ladder_cases": 1200, "corner_cases": 7500,
+                              "exh_cases": 500000, "ladder_cases": 1200, "corner_cases": 7500, "nest_product_cases": 8000,
                               "raw_compile_ok": 250000, "lineno_checked": 400000}},
 }
 
@@ -308,6 +308,20 @@ def _run(ctx):
             out = evaluate(ctx, cfg, src, "corner:" + fam, budget)
             ctx.count("corner_cases")
             ctx.dist((cfg, out, G.shape(src)))
+
+    # every pair (quick: all configurations; triples: one configuration per seed in quick, all in
+    # thorough) of container constructs nested directly in each other
+    for ci, cfg in enumerate(cfgs):
+        dl = delims[cfg]
+        depths = (2, 3) if (not quick or ci == ctx.seed % len(cfgs)) else (2,)
+        for depth in depths:
+            for fam, src in G.nest_products(dl, depth):
+                idx += 1
+                if not ctx.mine(idx):
+                    continue
+                out = evaluate(ctx, cfg, src, fam.split(":")[0], budget)
+                ctx.count("nest_product_cases")
+                ctx.dist((cfg, out, fam))
 
     # ------------------------------------------ (c) exhaustive short strings
     # length-major so that a time-box cut only loses the longest strings
